@@ -72,6 +72,7 @@ structure St where
   reported : List String := []
   prevMembers : List String := []
   expectUnchanged : Bool := false
+  prevSets : List Nat × List Nat × List Nat := ([], [], [])   -- allowed, reserved, free CPUs of the previous snapshot
   errPending : List String := []            -- containers whose pending change stems from an error reply
   dropped : List String := []               -- live containers a bulk re-allocation (sync/reconfig/restart) left without balloon
   reconfigChanged : List String := []       -- containers whose told cpuset changed in the reply to a re-applied configuration
@@ -377,7 +378,7 @@ def step (st : St) (toks : List String) : St × List Issue :=
   | ["BS", a, r, f, i, pc, ic] =>
     match (kv a "allowed").bind pset, (kv r "reserved").bind pset, (kv f "free").bind pset, (kv i "isolated").bind pset with
     | some a, some r, some f, some i =>
-      ({ st with prevBlns := st.snap.blns, snap := { allowed := a, reserved := r, free := f, isolated := i, pinCPU := pc == "pincpu=T", idleClass := (kv ic "idleclass").getD "-" } }, [])
+      ({ st with prevBlns := st.snap.blns, prevSets := (st.snap.allowed, st.snap.reserved, st.snap.free), snap := { allowed := a, reserved := r, free := f, isolated := i, pinCPU := pc == "pincpu=T", idleClass := (kv ic "idleclass").getD "-" } }, [])
     | _, _, _, _ => (st, [⟨.parse, "BS"⟩])
   | ["BD", name, minC, maxC, minB, maxB, level, hide, cls] =>
     match minC.toNat?, maxC.toNat?, minB.toNat?, maxB.toNat? with
@@ -427,7 +428,10 @@ def step (st : St) (toks : List String) : St × List Issue :=
           match st.snap.blns.find? (fun c => keyOf c == keyOf b) with
           | some c => sameSet b.cpus c.cpus && sameSet b.shared c.shared && b.ctrs == c.ctrs
           | none => false)
-        let errs := if !same then [s!"C13:rejected-config-changed-policy-state {st.lastEv.getD 1 "?"} balloons before={st.prevBlns.map (fun b => (keyOf b, b.cpus, b.ctrs))} after={st.snap.blns.map (fun b => (keyOf b, b.cpus, b.ctrs))}"] else []
+        -- ... and so are the CPUs the policy may use, its reserved CPUs and the free CPUs (what later balloons are built from)
+        let sameSets := sameSet st.prevSets.1 st.snap.allowed && sameSet st.prevSets.2.1 st.snap.reserved && sameSet st.prevSets.2.2 st.snap.free
+        let errs := if !sameSets then [s!"C13:rejected-config-changed-policy-state {st.lastEv.getD 1 "?"} allowed/reserved/free before={st.prevSets} after={(st.snap.allowed, st.snap.reserved, st.snap.free)}"] else []
+        let errs := if !same then errs ++ [s!"C13:rejected-config-changed-policy-state {st.lastEv.getD 1 "?"} balloons before={st.prevBlns.map (fun b => (keyOf b, b.cpus, b.ctrs))} after={st.snap.blns.map (fun b => (keyOf b, b.cpus, b.ctrs))}"] else errs
         let (st, is2) := report { st with expectUnchanged := false } errs
         (st, is ++ is2)
       else (st, is)
